@@ -43,7 +43,7 @@ from engine import pipeline_harness as H
 from engine.core import MachineryError, digest
 
 OWN = 'P4'
-C4_ACTIONS = ['AddHandler', 'Start', 'XReqCall', 'XRsrcCall', 'XResponder', 'XRespCall', 'RenderCall', 'XRenderFail', 'RenderBad', 'Route',
+C4_ACTIONS = ['AddHandler', 'Start', 'XReqCall', 'XRsrcCall', 'XResponder', 'XRespCall', 'RenderCall', 'XRenderFail', 'Route',
               'NotFound', 'HandleCall', 'NextRequest']
 ALL_BEHS = ['set', 'setbad', 'noop', 'http', 'status', 'draftst', 'drafterr', 'other']
 
@@ -224,7 +224,8 @@ def run(ctx):
     # ---- leg M ---------------------------------------------------------------------------------
     r = ctx.tlc('MC_Pipeline', ctx.pick('MC_PipelineHQ.cfg', 'MC_PipelineH.cfg'), coverage=True, env=env,
                 workers=ctx.pick(8, 16), timeout=ctx.pick(280, 1500))
-    ctx.extra['action_coverage'] = H.require_actions(r, C4_ACTIONS)
+    # the quick instance has no handler leaving an unserialisable body (RenderBad): simulated / thorough instances do
+    ctx.extra['action_coverage'] = H.require_actions(r, C4_ACTIONS + ([] if ctx.quick else ['RenderBad']))
     H.wrong_designs(ctx, env, ['mro_reversed', 'first_reg_wins', 'no_reset', 'render_drops_body', 'status_keeps_draft'])
     # registration histories on a depth-3 chain / diamond: the same handler object registered again for descendants,
     # a request after every registration
